@@ -194,12 +194,13 @@ def dyn_corpus(rng, n):
             '!path:cwd [runs, !xref name]', '!path:cwd [runs, logs]', '!path:file [x, %s y]' % t1, '!path:abs(/tmp) [!xref name, out]',
             '!path:parent(1) [cfg, !xref name]', "!path:cwd{{'priority': %d}} [runs, !xref name]" % p1,
         ])
-        ents = [('a', two), ('b', sib), ('c', cousin), ('root', pathn), ('name', 'exp1')]
+        twice = rng.choice(['!del {seed: , resume: , lr: 1}', '!call:vmod.f {p: , q: }', '[&n !null , 1, *n]', '{x: &r !required , y: *r}', '!weak {u: , v: , w: }'])
+        ents = [('a', two), ('b', sib), ('c', cousin), ('root', pathn), ('name', 'exp1'), ('t2', twice)]
         if rng.random() < 0.6:
             rng.shuffle(ents)
         doc = '{' + ', '.join(f'{k}: {v}' for k, v in ents) + '}'
-        base_doc = '{a: {p: 0, q: [0]}, b: 0, c: {d: [0, 0]}, name: old, root: none}'
-        later = '{a: {p: 10}, b: 20, c: {d: !merge [30]}, name: exp2}'
+        base_doc = '{a: {p: 0, q: [0]}, b: 0, c: {d: [0, 0]}, name: old, root: none, t2: {seed: 5, x: 1}}'
+        later = '{a: {p: 10}, b: 20, c: {d: !merge [30]}, name: exp2, t2: {x: 2}}'
         out.append(dict(texts=[base_doc, doc], pos=1))
         out.append(dict(texts=[doc, later], pos=0))
         out.append(dict(texts=[base_doc, doc, later], pos=1))
